@@ -74,8 +74,10 @@ func lookupNode[T any](urlTree *URLTree[T], url string) lookupNodeResult[T] {
 			continue
 		}
 
+		// A path parameter stands for a non-empty segment ("a.com//x" is not
+		// "a.com/{id}/x"): the proxy's [^/]+ and the metrics labels agree on that
 		parametricChild := currentNode.ParametricChild.Child
-		if parametricChild != nil &&
+		if parametricChild != nil && urlPart.Value != "" &&
 			parametricChild.IsPartOfHost == urlPart.IsPartOfHost {
 			if name, isPathParam := TryExtractPathParameter(urlPart.Value); isPathParam {
 				if name != currentNode.ParametricChild.Name {
